@@ -319,6 +319,36 @@ func VerifHarness_C13_RoundTripDate() {
 	verifRoundTrip(x, "Date")
 }
 
+// A Date converts to DateTime (conversion table), so the text of a Date - a partial DateTime that stops at the year,
+// month or day - converts too, to the same value: x.toString().toDateTime() = x.toDateTime().
+func VerifHarness_C13_DateTextConvertsToDateTime() {
+	y := verifrt.NondetIntRange("year", 1000, 2999)
+	text := []byte{byte('0' + y/1000), byte('0' + y/100%10), byte('0' + y/10%10), byte('0' + y%10)}
+	p := verifrt.Choose("precision", 3)
+	if p >= 1 {
+		mo := verifrt.NondetIntRange("month", 1, 12)
+		text = append(text, '-', byte('0'+mo/10), byte('0'+mo%10))
+	}
+	if p >= 2 {
+		d := verifrt.NondetIntRange("day", 1, 28)
+		text = append(text, '-', byte('0'+d/10), byte('0'+d%10))
+	}
+	x, err := system.ParseDate(string(text))
+	verifrt.Assume(err == nil)
+	t := verifFullTable()
+	direct, err1 := t["toDateTime"].Func(verifCtx(), system.Collection{x})
+	viaText, err2 := t["toDateTime"].Func(verifCtx(), system.Collection{system.String(text)})
+	ok := err1 == nil && err2 == nil && len(direct) == 1 && len(viaText) == 1
+	if ok {
+		eq, has := direct.TryEqual(viaText)
+		ok = eq && has
+	}
+	verifrt.Assert(ok, "the-text-of-a-date-converts-to-the-datetime-the-date-converts-to")
+	conv, err3 := t["convertsToDateTime"].Func(verifCtx(), system.Collection{system.String(text)})
+	verifrt.Assert(err3 == nil && len(conv) == 1 && conv[0] == system.Boolean(true), "convertsToDateTime-agrees")
+	verifrt.Reach("end")
+}
+
 func VerifHarness_C13_RoundTripDateTime() {
 	verifrt.SplitCalendar()
 	day := []string{"2020-02-29", "1999-12-31"}[verifrt.Choose("day", 2)]
